@@ -562,7 +562,8 @@ class Gen:
             sub = "d1" if sem["src"].startswith(os.path.join(ROOT, "d1") + "/") else \
                 ("d2" if sem["src"].startswith(os.path.join(ROOT, "d2") + "/") else r.choice(["d1", "d2"]))
             base = os.path.join(ROOT, sub)
-            e["directory"] = os.path.join(TOP, alias(base)) if dmode == "sub_abs" else sub + r.choice(["", "/", "/."])
+            e["directory"] = os.path.join(TOP, alias(base)) if dmode == "sub_abs" else \
+                sub + r.choice(["", "/", "/.", "/../" + sub, "/inc/.."])
         else:
             base = ROOT
             e["directory"] = "."
